@@ -31,7 +31,8 @@ ASSUMPTIONS = ['open zones of the reference matcher (null ids inside a batch arr
                'a body that is not JSON may surface as JSONDecodeError (a ValueError), Appendix F.2']
 
 FAULT_KINDS = ['none', 'permute', 'omit', 'dup', 'extra', 'id_other', 'id_twin', 'id_null', 'id_foreign', 'batch_error',
-               'member', 'error_member', 'not_json', 'truncate', 'unwrap', 'empty_array', 'null_error_extra']
+               'member', 'error_member', 'not_json', 'truncate', 'unwrap', 'empty_array', 'null_error_extra',
+               'null_and_dup']
 ID_POOL: List[Any] = [1, '1', 2, 'abc', 0, '', -1, 'x', 10, '10',
                       # long ids (composite / UUID-like strings, a 45-digit integer)
                       'gateway-07/req-000041/sess-3f9a1c2e7b', '6f1e2d3c-0000-4a5b-8c7d-9e0f1a2b3c4d', 10 ** 44 + 7]
@@ -76,6 +77,12 @@ def _draw_fault(ch: Any, kind: str, n_calls: int) -> Optional[Tuple[Any, ...]]:
         # what a server adds for a batch element it could not even identify
         el = {'jsonrpc': '2.0', 'id': None, 'error': {'code': -32600, 'message': 'Invalid Request'}}
         return ('extra', el, ch.draw(n_calls + 1, 'fault.pos'))
+    if kind == 'null_and_dup':
+        # two things at once: an id is repeated AND the array carries a null-id error entry (somewhere: in front of the
+        # first occurrence, between the two, or behind both) - "repeats an id" holds whatever else the array contains
+        el = {'jsonrpc': '2.0', 'id': None, 'error': {'code': -32600, 'message': 'Invalid Request'}}
+        return ('seq', [('dup', ch.draw(max(1, n_calls), 'fault.idx'), ch.draw(n_calls + 1, 'fault.pos')),
+                        ('extra', el, ch.draw(n_calls + 2, 'fault.pos2'))])
     raise ValueError(kind)
 
 
